@@ -365,8 +365,16 @@ func c04RefLex(src []rune, buf []c04Tok) (toks []c04Tok, st int, why string) {
 			return toks, c04DC, "nul"
 		case ch == '\r' || ch == '\n':
 			return toks, c04DC, "line-break"
-		case ch == 0x6CE8: // 注
-			return toks, c04DC, "zhu-comment-glyph"
+		case ch == 0x6CE8 && !inBackticks: // 注
+			// a comment is 注 + any number of digits + ：(manual ch.1); 注 followed by digits
+			// and something else is ordinary identifier text
+			j := i + 1
+			for j < n && src[j] >= '0' && src[j] <= '9' {
+				j++
+			}
+			if j < n && src[j] == '：' {
+				return toks, c04DC, "zhu-comment"
+			}
 		case ch == '/' && !inBackticks && i+1 < n && (src[i+1] == '/' || src[i+1] == '*' || src[i+1] == '='):
 			return toks, c04DC, "comment-start-or-/="
 		}
@@ -910,6 +918,9 @@ var c04SegA18 = []string{"不", "大", "小", "等", "于", "为", "如", "果",
 // pass B: the four arithmetic signs and what may follow them
 var c04SegB = []string{"+", "-", "*", "/", " ", "，", "“甲”", "甲", "1", "为", "."}
 
+// pass D: the comment glyph, digits, the colon, a name character, a keyword, a blank
+var c04SegD = []string{"注", "1", "2", "：", "甲", "为", " "}
+
 // pass C: every glyph of every keyword, and a plain character
 var c04SegC = func() []string {
 	seen := map[rune]bool{}
@@ -975,6 +986,10 @@ func c04Levels(tier string) []c04Level {
 	}
 	for n := 1; n <= cL; n++ {
 		ls = append(ls, c04Level{"seg", "C", c04SegC, n})
+	}
+	// pass D: 注 with digits, with and without the colon that makes it a comment
+	for n := 1; n <= 5; n++ {
+		ls = append(ls, c04Level{"seg", "D", c04SegD, n})
 	}
 	ls = append(ls, c04Level{"num", "boundary", c04NumBoundary, 1})
 	for n := 0; n <= wideL; n++ {
